@@ -769,7 +769,6 @@ func flowsTo(src, dst ssa.Value, seen map[ssa.Value]bool, d int) bool {
 	return false
 }
 
-
 // errSources is the path-insensitive provenance of a function's error result: "nil", "call:<name>" for the error
 // returned by a callee, "new:<Type>[:<Err constant>]" for an error value built in place.
 func errSources(fn *ssa.Function, resIdx int) map[string]bool {
